@@ -216,6 +216,8 @@ class Interp:
             return v.get(st).length > 0
         if isinstance(v, SymSeq):
             return v.length > 0
+        if isinstance(v, Ref) and v.nullable:
+            return v.term != -1
         if isinstance(v, (Ref, BoundMethod, FuncRef)):
             return True
         if hasattr(v, "truth"):
@@ -934,6 +936,9 @@ class Interp:
                 if f.name == "keys":
                     yield st, list(recv.keys())
                     return
+                if f.name == "copy":
+                    yield st, dict(recv)
+                    return
                 if f.name == "values":
                     yield st, list(recv.values())
                     return
@@ -964,6 +969,24 @@ class Interp:
         seq = recv.get(st)
         if name == "append":
             recv.set(st, seq.appended(args[0]))
+            yield st, None
+            return
+        if name == "remove" and len(seq.comps) == 1:
+            # list.remove(x): deletes the FIRST element equal to x; ValueError if absent (-> obligation)
+            x = unwrap(args[0], seq.kinds[0])
+            k = fresh("rmidx", INT)
+            j = z3.Int("j!rm")
+            A = seq.comps[0]
+            present = z3.Exists([j], z3.And(0 <= j, j < seq.length, z3.Select(A, j) == x))
+            self.oblige(st, f"no_value_error_in_remove@{node.lineno}", present)
+            st.assume(0 <= k, k < seq.length, z3.Select(A, k) == x,
+                      z3.ForAll([j], z3.Implies(z3.And(0 <= j, j < k), z3.Select(A, j) != x)))
+            new = SymSeq.fresh("removed", seq.kinds)
+            st.assume(new.length == seq.length - 1,
+                      z3.ForAll([j], z3.Implies(z3.And(0 <= j, j < new.length),
+                                                z3.Select(new.comps[0], j) == z3.If(j < k, z3.Select(A, j), z3.Select(A, j + 1)))))
+            recv.set(st, new)
+            st.ghost["last_removed_index"] = k
             yield st, None
             return
         raise Unsupported(f"list method {name}")
@@ -1267,7 +1290,12 @@ class Interp:
     def assign(self, tgt, v, st):
         if isinstance(tgt, ast.Name):
             lk = getattr(self.cur_contract, "local_kinds", None) if not st.frames else None
-            if lk and tgt.id in lk and isinstance(v, list):
+            if lk and tgt.id in lk and isinstance(lk[tgt.id], tuple) and lk[tgt.id][:1] == ("optref",):
+                if v is None:
+                    v = Ref(lk[tgt.id][1], -1, nullable=True)
+                elif isinstance(v, Ref):
+                    v = Ref(v.cls, v.term, nullable=True)
+            elif lk and tgt.id in lk and isinstance(v, list):
                 # a local list of symbolic length: content arrays + definitional prefix sums
                 v = LstObj(self.as_seq(v, st, kinds=lk[tgt.id]).with_psums(st, tgt.id + ".ps"))
             st.env[tgt.id] = v
@@ -1476,7 +1504,9 @@ class Interp:
         if isinstance(v, SStr) or isinstance(v, str) or v is None:
             return SStr(fresh(n, INT))
         if isinstance(v, Ref):
-            r = Ref(v.cls, fresh(n, INT))
+            r = Ref(v.cls, fresh(n, INT), nullable=v.nullable)
+            if v.nullable:
+                st.assume(r.term >= -1)
             return r
         if isinstance(v, LstObj):
             cur = v.get(st)
@@ -1564,12 +1594,19 @@ class Interp:
         k, spec = self._loop_spec(node)
         tag = f"{self.cur_contract.key}#loop{k}"
         pre = st.fork()
+        gkeys = []
+        if spec.ghost_init:
+            g0 = spec.ghost_init(Ctx(self, st, old=self.entry, it=z3.IntVal(0), pre=pre))
+            gkeys = list(g0)
+            st.ghost.update(g0)
         for nm, t in spec.inv(Ctx(self, st, old=self.entry, pre=pre, it=z3.IntVal(0))):
             self.oblige(st, f"{tag}.init:{nm}", t)
         mutated = set()
-        assigned = _assigned_names(node.body, mutated)
+        assigned = _assigned_names(node.body, mutated) | _assigned_names([ast.Expr(node.test)], mutated)
         hv = st.fork()
         self._havoc_env(hv, assigned, mutated)
+        for gk in gkeys:
+            hv.ghost[gk] = fresh("ghost." + gk, hv.ghost[gk].sort())
         for key in spec.modifies:
             hv.heap[key] = fresh("lp." + key, hv.heap[key].sort())
         if spec.allocates:
@@ -1592,8 +1629,12 @@ class Interp:
             if feasible(body_st.pc):
                 var0 = spec.variant(Ctx(self, body_st, old=self.entry, it=it, pre=pre)) if spec.variant else None
                 heap_before = dict(body_st.heap)
+                it_start = body_st.fork()
                 for st2, flow in self.exec_block(node.body, body_st):
-                    self._check_frame(heap_before, st2, spec, tag)
+                    if flow.kind in ("next", "continue", "break"):
+                        self._check_frame(heap_before, st2, spec, tag)
+                    if spec.ghost_update:
+                        st2.ghost.update(spec.ghost_update(Ctx(self, it_start, old=self.entry, it=it, pre=pre), Ctx(self, st2, old=self.entry, it=it + 1, pre=pre)))
                     if flow.kind in ("next", "continue"):
                         for nm, tt in spec.inv(Ctx(self, st2, old=self.entry, it=it + 1, pre=pre)):
                             self.oblige(st2, f"{tag}.preserve:{nm}", tt)
